@@ -356,13 +356,19 @@ PROPS["C15"] = {
              "a repeated End. c15_rendezvous: real pion peer construction with generated ICE configurations (none, empty URL, "
              "garbage, stun/turn/stuns forms) and scripted broker outcomes (transport error, empty, non-JSON, error JSON, answer of wrong JSON "
              "type, type-confused, unparsable SDP, an offer instead of an answer; thorough: a real answer from a peer that never connects, "
-             "10 s): must return (nil, error), twice in a row, without panicking. c15_binary (thorough): the client binary as a managed "
+             "10 s): must return (nil, error), twice in a row, without panicking. c15_teardown: 1-4 real offline pion peers (tearing one "
+             "down takes real time) collected into Peers, each with a reader blocked in Read as the data path's receive loop is; a "
+             "generated subset closes on its own (data-channel close / staleness) after generated delays, and whenever a reader is told "
+             "its peer has ended the harness calls Pop, as the redialing data path does. Oracle: Pop never returns a peer whose reader "
+             "had been told 'ended' before Pop was called (happens-before chain, not a timing guess), never the same peer twice; after "
+             "End all peers are closed. Non-trivial = at least one self-closing peer among >= 2 collected. c15_binary (thorough): the client binary as a managed "
              "transport with generated -ice values and SOCKS ice=/max= arguments against a broker that refuses in five ways: alive after "
              "2-24 s of failing attempts, no broker poll in the 23 s after the SOCKS connection closed, exit within 15 s of SIGTERM."),
     "assumptions": ["the schedule is owned through explicit gates in the scripted dialer, not through a clock (sync.Mutex waits freeze a synctest bubble and Peers holds a mutex across the rendezvous)",
                     "connectLoop's 10 s pacing is real time: only its first iteration is inside a case"],
     "units": [U("c15_peers", "inpkg", "client/lib", "^TestVerifC15Peers$", (400, 5000), timeout=(400, 3000), wedge_is_violation=True),
               U("c15_rendezvous", "inpkg", "client/lib", "^TestVerifC15Rendezvous$", (12, 120), timeout=(400, 3000)),
+              U("c15_teardown", "inpkg", "client/lib", "^TestVerifC15Teardown$", (60, 600), shards=(4, 8), timeout=(400, 3000)),
               U("c15_binary", "ext", "c15bin", "^TestVerifC15Binary$", (0, 8), shards=(0, 8), timeout=(400, 1200), tiers=["thorough"])],
 }
 META["C15"] = {
